@@ -319,6 +319,28 @@ CHECKS = {
         "chains of depth 2, thorough: depth 3 sampled."),
   technique="TLC-enumerated derivation chains replayed on real basin files",
  ),
+ "C14": dict(
+  level="model_checking",
+  design_ref="DESIGN.md section 5, C14",
+  text=("BasinGraphSpec defines the files whose features a dataset may "
+        "offer as the least fixed point of reachability over basin "
+        "definitions that match (identifier equal, or prefix for mapped "
+        "basins) and are permitted (no file-type basin below a network "
+        "hop); TLC checks that no local file is ever followed below a "
+        "remote hop and enumerates all graphs over 3 files with file/"
+        "mapped definitions x identifier assignments, graphs with self "
+        "references, and graphs with remote (http), dangling and local "
+        "definitions for local and http roots. Every graph is written as "
+        "real .rtdc files (store_basin(verify=False)), served by a loop-"
+        "back range-capable http server where needed, opened under a 30 s "
+        "watchdog (termination), and every feature is probed with `in`, "
+        "read and decoded."),
+  note=("S3/DCOR formats cannot be emulated (the rule they share, "
+        "_local_basins_allowed, is exercised through http); quick: a sixth "
+        "of the 6.5k local graphs, all K=2 graphs, 1/400 of the 281k mixed "
+        "K=3 graphs; thorough: all local, 1/40 of the mixed."),
+  technique="TLC-enumerated basin graphs with fixed-point oracle replayed on real files and a loop-back http server",
+ ),
 }
 
 NOT_YET = "check not built yet (work in progress; see DESIGN.md section 5)"
